@@ -265,7 +265,8 @@ def setbit_facts(lib, ctx, d, d2, n, q, r, b, v):
        set_bit_byte_range: the new byte is a byte; a read that ends with bit p gains b * 2^(k-1); reads that end at or
        before p are unchanged; every bit above p is still zero."""
     p = 8 * q + r
-    hyp = z3.And(q >= 0, q < n, r >= 0, r <= 7, z3.Or(b == 0, b == 1), bt.bitsval_f(d, n, p, 8 * n - p) == 0)
+    hyp = z3.And(q >= 0, q < n, r >= 0, r <= 7, z3.Or(b == 0, b == 1), z3.Select(d, q) >= 0, z3.Select(d, q) <= 255,
+                 bt.bitsval_f(d, n, p, 8 * n - p) == 0)
     bt.USED.add("bitsval-setbit")
     off, k = z3.FreshConst(I, "off"), z3.FreshConst(I, "k")
     ctx.pc.append(z3.Implies(hyp, z3.And(v >= 0, v <= 255)))
